@@ -19,7 +19,8 @@ RULE = ("(a) DoubleQuotesToBackTick / FixIdiomaticArray vs the Lean scanners on 
         "nested brackets, all option combinations; (c) Wrapped() vs {\"root\": input}; non-trivial = text contains a quoted "
         "segment with a character from \" ' \\ ` [ ]")
 
-ALPHA = ["'", '"', "`", "\\", "[", "]", "a", " ", ",", "1", "é", "世", "x", "(", ")"]
+# (the rewrites know nothing of SQL comments: `--`, `#`, `/*` are ordinary bytes to them, as `a--1` is ordinary arithmetic to the parser)
+ALPHA = ["'", '"', "`", "\\", "[", "]", "a", " ", ",", "1", "é", "世", "x", "(", ")", "-", "--", "#", "/*", "*/", "\n"]
 HOSTILE = ['"', "[", "]", "[1,2]", "a b", "é世", "''", "x\"y", "]", "[["]
 
 
@@ -50,8 +51,8 @@ def structured_text(rnd):
                 return "[" + ",".join(items) + "]"
             parts.append(br(2))
         else:
-            parts.append(rnd.choice(["SELECT", "a", ",", " ", "1+2", "]", "["]))
-    return " ".join(parts)
+            parts.append(rnd.choice(["SELECT", "a", ",", " ", "1+2", "]", "[", "a--1", "a-- 1", "--", "#", "/*", "*/", "1-\n-2", "a#b"]))
+    return rnd.choice([" ", " ", " ", ""]).join(parts)
 
 
 def unit_cases(rnd, n, exhaustive_len):
@@ -120,7 +121,9 @@ def meta_cases(rnd, n):
             continue
         if kind < 0.45:
             # identifier quoting: backticks without the option == double quotes with it
-            tmpl = "SELECT {a} AS r1, {b} AS r2, " + sql_str(s) + " AS lit FROM t WHERE {b} != " + sql_str(s + "#")
+            # (sometimes behind arithmetic whose text looks like the start of a comment to anything but the tokenizer)
+            pre = rnd.choice(["", "", "", "n--1 AS neg, ", "n-- 1 AS neg, ", "n-(-1) AS neg, ", "1--n AS neg, "])
+            tmpl = "SELECT " + pre + "{a} AS r1, {b} AS r2, " + sql_str(s) + " AS lit FROM t WHERE {b} != " + sql_str(s + "#")
             canon_sql = tmpl.format(a=bt(k1), b=bt(k2))
             alt_sql = tmpl.format(a=dq(k1), b=dq(k2))
             pairs.append(({"op": "query", "doc": enc_val(doc), "sql": canon_sql},
@@ -142,9 +145,10 @@ def meta_cases(rnd, n):
                 return "ARRAY(" + ", ".join(r_arr(x, q) if isinstance(x, list) else leaf(x, q) for x in t) + ")"
             def r_brk(t, q=bt):
                 return "[" + ", ".join(r_brk(x, q) if isinstance(x, list) else leaf(x, q) for x in t) + "]"
-            canon_sql = "SELECT %s AS v, %s AS lit FROM t" % (r_arr(tree), sql_str(s))
-            alt_sql = "SELECT %s AS v, %s AS lit FROM t" % (r_brk(tree), sql_str(s))
-            alt_sql_dq = "SELECT %s AS v, %s AS lit FROM t" % (r_brk(tree, dq), sql_str(s))
+            pre = rnd.choice(["", "", "", "n--1 AS neg, ", "n-(-1) AS neg, ", "1--n AS neg, "])
+            canon_sql = "SELECT %s%s AS v, %s AS lit FROM t" % (pre, r_arr(tree), sql_str(s))
+            alt_sql = "SELECT %s%s AS v, %s AS lit FROM t" % (pre, r_brk(tree), sql_str(s))
+            alt_sql_dq = "SELECT %s%s AS v, %s AS lit FROM t" % (pre, r_brk(tree, dq), sql_str(s))
             pairs.append(({"op": "query", "doc": enc_val(doc), "sql": canon_sql},
                           {"op": "query", "doc": enc_val(doc), "sql": alt_sql, "arr": True}, "arrays"))
             both = rnd.random() < 0.3
